@@ -44,13 +44,34 @@ def _run_aux(arg):
 
 
 def load_known():
-    p = os.path.join(ROOT, 'known_findings.jsonl')
+    """known_findings.txt: 'known: property=C03 unit=U label=L :: what' | 'known: property=C03 class=K :: what' |
+    'fixed: property=C05 <commit> <what>' (a fixed entry suppresses nothing)."""
+    p = os.path.join(ROOT, 'known_findings.txt')
     out = []
     if os.path.exists(p):
         for line in open(p):
             line = line.strip()
-            if line and not line.startswith('#'):
-                out.append(json.loads(line))
+            if not line or line.startswith('#'):
+                continue
+            status, _, rest = line.partition(':')
+            status = status.strip()
+            rest = rest.strip()
+            if status == 'fixed':
+                out.append({'status': 'fixed', 'line': rest})
+                continue
+            head, _, what = rest.partition('::')
+            e = {'status': status, 'what': what.strip()}
+            # key=value pairs; a value runs until the next ' key=' token
+            import re
+            keys = list(re.finditer(r'(?:^|\s)(property|unit|label|class)=', head))
+            for i, m in enumerate(keys):
+                end = keys[i + 1].start() if i + 1 < len(keys) else len(head)
+                e[m.group(1)] = head[m.end():end].strip()
+            if 'label' in e:
+                e['label_prefix'] = e['label']
+            if 'class' in e:
+                e['input_class'] = e['class']
+            out.append(e)
     return out
 
 
